@@ -111,7 +111,15 @@ def gen_enum_harness(item, d, hname, arm_budget=200):
     for ident, _ in variants:
         by_norm.setdefault(norm(ident), []).append(ident)
     idents = []
+    exact = set(ident for ident, _ in variants)
     for m in d["members"]:
+        camel = "".join(seg[:1].upper() + seg[1:].lower() for seg in m["name"].split("_"))
+        if camel in exact:
+            idents.append(camel)
+            continue
+        if camel + "X" in exact:
+            idents.append(camel + "X")
+            continue
         c = by_norm.get(norm(m["name"]))
         if not c:
             # identifiers that would clash in Rust (keywords, `Error` vs Self::Error) carry an `X` suffix: SELF -> SelfX
